@@ -243,7 +243,8 @@ WellFormedFor(f, c) ==
        /\ (Len(c.data) % 4 = 0) => (ds % 4 = 0)                \* tables word-aligned whenever the data is
 
 \* ------------------------------------------------------------------ domain of the properties
-CellOK(c, a) == a % 4 = 0 /\ a + 4 <= Len(c.data)
+\* (a cell is any 4 bytes inside the data: the public API takes every byte address; annotated cells do not overlap)
+CellOK(c, a) == a >= 0 /\ a + 4 <= Len(c.data)
 ValidContent(c) ==
   /\ \A i \in 1..Len(c.text) : CellOK(c, c.text[i][1])
   /\ \A i \in 1..Len(c.ptrs) : CellOK(c, c.ptrs[i][1]) /\ c.ptrs[i][2] <= Len(c.data)
@@ -251,5 +252,5 @@ ValidContent(c) ==
   /\ \A i \in 1..Len(c.labels) : c.labels[i][1] <= Len(c.data) /\ Len(c.labels[i][2]) > 0
   \* at most one of pointer / string / c-string per cell
   /\ LET all == Firsts(c.text) \o Firsts(c.ptrs) \o Firsts(c.cstr)
-     IN \A i, j \in 1..Len(all) : i # j => all[i] # all[j]
+     IN \A i, j \in 1..Len(all) : i # j => (all[i] >= all[j] + 4 \/ all[j] >= all[i] + 4)
 =============================================================================
